@@ -123,6 +123,16 @@ func Build(spec engine.CartSpec) ([]byte, error) {
 		}
 		copy(img[entry:], prog)
 	}
+	if spec.Program2 != "" {
+		// a second program at the same window address in another page (code that switches the bank it
+		// is executing from)
+		prog := engine.UnHex(spec.Program2)
+		off := spec.Page2*0x4000 + int(entry&0x3fff)
+		if spec.Page2 >= banks || off+len(prog) > len(img) {
+			return nil, fmt.Errorf("second program does not fit")
+		}
+		copy(img[off:], prog)
+	}
 	return img, nil
 }
 
